@@ -146,12 +146,13 @@ def fieldMissing (D : Field → R) (f : Field) : Out Unit FieldRes :=
     | .err e => .err e
     | .crash k => .crash k
 
-def definedCount (kvs : List (List Nat × PyVal)) : Nat :=
-  (kvs.filter fun kv => match kv.2 with | .undefined => false | _ => true).length
-
 def isDefined : PyVal → Bool
   | .undefined => false
   | _ => true
+
+/-- `defined_field_count`: entries whose value is not `Undefined` -/
+def definedCount (kvs : List (List Nat × PyVal)) : Nat :=
+  (kvs.filter fun kv => isDefined kv.2).length
 
 /-- some key with a defined value is not a declared field -/
 def hasUnknownDefined (kvs : List (List Nat × PyVal)) (fields : List Field) : Bool :=
@@ -339,17 +340,23 @@ theorem asObj_sizeOf {l : Lit} {fs : List (List Nat × Lit)} (h : l.asObj = some
     sizeOf fs < sizeOf l := by
   cases l <;> simp [Lit.asObj] at h; subst h; simp
 
+/-- `isinstance(field_node.value, NullValueNode)` for the node named `n` -/
+def nodeIsNull (fs : List (List Nat × Lit)) (n : List Nat) : Bool :=
+  match litGetLast fs n with
+  | some node => node.isNull
+  | none => false
+
+/-- `coerced_dict.get(n, Undefined) is None` for the one-entry dict `{k: cv}` -/
+def coercedIsNone (k : List Nat) (cv : PyVal) (n : List Nat) : Bool :=
+  match PyVal.dictGet [(k, cv)] n with
+  | some .none => true
+  | _ => false
+
 /-- the OneOf post-check of `coerce_input_literal` -/
 def oneOfLiteral (fs : List (List Nat × Lit)) (entries : List (List Nat × PyVal)) : R :=
   match litNames fs, entries with
   | [n], [(k, cv)] =>
-    let nodeNull := match litGetLast fs n with
-      | some node => node.isNull
-      | none => false
-    let coercedNone := match PyVal.dictGet [(k, cv)] n with
-      | some .none => true
-      | _ => false
-    if nodeNull || coercedNone then .ok .undefined else .ok (.dict [(k, cv)])
+    if nodeIsNull fs n || coercedIsNone k cv n then .ok .undefined else .ok (.dict [(k, cv)])
   | _, _ => .ok .undefined
 
 /-- a list item that came out `Undefined`: "a missing variable within a list is coerced to null" -/
